@@ -10,7 +10,7 @@ use std::{
 use rand::{rngs::StdRng, Rng, SeedableRng};
 use serde_json::{json, Value};
 use shredh::{
-    prog::{gen_prog, GenCfg, Op, Prog, Variant},
+    prog::{gen_prog, prog_of_state, GenCfg, Variant},
     record::{record_registration, write_events},
     Args,
 };
@@ -28,6 +28,7 @@ fn main() {
     match a.cmd() {
         "random" => random(&a),
         "replay" => replay(&a),
+        "sendable" => sendable(&a),
         _ => {
             eprintln!("usage: planner random|replay ...");
             std::process::exit(2)
@@ -102,46 +103,6 @@ fn random(a: &Args) {
     );
 }
 
-/// One TLC terminal state -> program (names "n<k>", deps by name).
-fn prog_of_state(st: &Value) -> (Prog, Vec<Vec<Vec<u64>>>) {
-    let regs = st["regs"].as_array().unwrap();
-    let mut ops = Vec::new();
-    let mut epoch = 0;
-    for (i, r) in regs.iter().enumerate() {
-        let e = r["e"].as_u64().unwrap();
-        if e > epoch {
-            ops.push(Op::Barrier);
-            epoch = e;
-        }
-        let nm = r["nm"].as_u64().unwrap();
-        let name = if nm == 0 { String::new() } else { format!("n{}", nm) };
-        let _ = i;
-        let deps: Vec<String> = r["d"]
-            .as_array()
-            .unwrap()
-            .iter()
-            .map(|d| {
-                // d is a system id; its name token is regs[d].nm
-                let id = d.as_u64().unwrap() as usize;
-                format!("n{}", regs[id - 1]["nm"].as_u64().unwrap())
-            })
-            .collect();
-        let v = |k: &str| -> Vec<u32> { r[k].as_array().unwrap().iter().map(|x| x.as_u64().unwrap() as u32).collect() };
-        ops.push(Op::Add {
-            r: v("r"),
-            w: v("w"),
-            deps,
-            t: r["t"].as_u64().unwrap() as u8,
-            name,
-        });
-    }
-    if st["epoch"].as_u64().unwrap() > epoch {
-        ops.push(Op::Barrier);
-    }
-    let ids: Vec<Vec<Vec<u64>>> = serde_json::from_value(st["ids"].clone()).unwrap();
-    (Prog { ops }, ids)
-}
-
 fn replay(a: &Args) {
     let inp = a.get("in").expect("--in");
     let out = a.get("out").expect("--out");
@@ -214,4 +175,44 @@ fn replay(a: &Args) {
         json!({"behaviours":behaviours,"instantiations":insts,"matched":matched,"drift":drift,
                "distinct_layouts":shapes.len(),"validated_sample":written,"samples":samples,"drift_samples":drift_samples})
     );
+}
+
+/// planner sendable ... : random programs with and without thread-local systems;
+/// Dispatcher::try_into_sendable and the plan of whatever it returns
+fn sendable(a: &Args) {
+    let seed: u64 = a.num("seed", 1);
+    let count: usize = a.num("count", 100);
+    let out = a.get("out").expect("--out");
+    let mut w = BufWriter::new(File::create(out).unwrap());
+    let mut rng = StdRng::seed_from_u64(seed);
+    let mut base = GenCfg::basic(1, 25, 6);
+    base.p_batch = 0.08;
+    base.max_depth = 2;
+    let (mut with_tl, mut nev) = (0usize, 0usize);
+    for k in 0..count {
+        let mut cfg = base.clone();
+        cfg.p_tl = *[0.0, 0.0, 0.05, 0.3].get(rng.gen_range(0..4)).unwrap();
+        let prog = gen_prog(&mut rng, &cfg, 0, "");
+        let mut res = Vec::new();
+        prog.resources(&mut res);
+        let mut r = record_registration(&prog, Variant::identity(&res), k + 1, 0, false);
+        if let Some(d) = r.dispatcher.take() {
+            let top = r.top;
+            match d.try_into_sendable() {
+                Ok(sd) => {
+                    let (lay, tl) = r.rec.layout_gids(&sd.verif_layout());
+                    r.rec.events.push(json!({"ev":"sendable","b":top,"ok":true,"lay":lay,"tl":tl}));
+                }
+                Err(d) => {
+                    with_tl += 1;
+                    let (lay, tl) = r.rec.layout_gids(&d.verif_layout());
+                    r.rec.events.push(json!({"ev":"sendable","b":top,"ok":false,"lay":lay,"tl":tl}));
+                }
+            }
+        }
+        nev += r.rec.events.len();
+        write_events(&mut w, &r.rec.events);
+    }
+    w.flush().unwrap();
+    println!("{}", json!({"programs":count,"with_thread_local":with_tl,"events":nev}));
 }
